@@ -12,11 +12,43 @@
 (***************************************************************************)
 EXTENDS TraceLib
 
-R == INSTANCE Rfc8259 WITH DoubleOf <- TraceDoubleOf
+\* The reference reader marks how a number lexeme is to be read: integer lexemes in [-2^63, 2^64) stay exact decimals
+\* (t = "num"); every other lexeme (fraction, exponent, or out of that range) is marked t = "dbl" = "read as nearest double".
+Mark(x) == [t |-> "dbl", neg |-> x.neg, d |-> x.d, e |-> x.e]
+Exact(x) == [t |-> "num", neg |-> x.neg, d |-> x.d, e |-> x.e]
+R == INSTANCE Rfc8259 WITH DoubleOf <- Mark
 L == INSTANCE JsonLexer WITH DoubleOf <- TraceDoubleOf, DevLowerCaseExponentOnly <- FALSE
 
 VARIABLE l
-SameSeq(a, b) == Len(a) = Len(b) /\ \A i \in 1..Len(a) : JSame(a[i], b[i])
+IsNumber(v) == v.t = "num" \/ v.t = "dbl"
+\* i: what the input denotes, o: what the output row denotes
+NumSame(i, o) == IF i.t = "num" THEN o = i                                   \* integers: digit for digit, still an integer lexeme
+                 \* everything else: the same nearest double - and an integer lexeme in the output denotes itself, so it must BE that double
+                 ELSE TraceDoubleOf(Exact(o)) = TraceDoubleOf(Exact(i)) /\ (o.t = "num" => ExactDouble(o))
+RECURSIVE FSame(_, _)
+FSame(i, o) ==
+  IF IsNumber(i) THEN IsNumber(o) /\ NumSame(i, o)
+  ELSE IF i.t # o.t THEN FALSE
+  ELSE IF i.t = "arr" THEN Len(i.a) = Len(o.a) /\ \A k \in 1..Len(i.a) : FSame(i.a[k], o.a[k])
+  ELSE IF i.t = "obj" THEN i.k = o.k /\ \A k \in 1..Len(i.k) : FSame(i.v[k], o.v[k])
+  ELSE i = o
+SameSeq(a, b) == Len(a) = Len(b) /\ \A i \in 1..Len(a) : FSame(a[i], b[i])
+\* the lexer's values are already doubles (shortest round-trip decimals) where the code makes them doubles
+RECURSIVE LSame(_, _)
+LSame(i, o) ==
+  IF IsNumber(i) THEN o.t = "num" /\ (IF i.t = "num" THEN o = i ELSE o = TraceDoubleOf(Exact(i)))
+  ELSE IF i.t # o.t THEN FALSE
+  ELSE IF i.t = "arr" THEN Len(i.a) = Len(o.a) /\ \A k \in 1..Len(i.a) : LSame(i.a[k], o.a[k])
+  ELSE IF i.t = "obj" THEN i.k = o.k /\ \A k \in 1..Len(i.k) : LSame(i.v[k], o.v[k])
+  ELSE i = o
+\* the model's universe holds only numbers that are their own double
+RECURSIVE MSame(_, _)
+MSame(i, m) ==
+  IF IsNumber(i) THEN m.t = "num" /\ Exact(i) = m
+  ELSE IF i.t # m.t THEN FALSE
+  ELSE IF i.t = "arr" THEN Len(i.a) = Len(m.a) /\ \A k \in 1..Len(i.a) : MSame(i.a[k], m.a[k])
+  ELSE IF i.t = "obj" THEN i.k = m.k /\ \A k \in 1..Len(i.k) : MSame(i.v[k], m.v[k])
+  ELSE i = m
 
 Check(r) ==
   LET ref == R!StrictParseStream(r.in)
@@ -25,17 +57,19 @@ Check(r) ==
       vals == [i \in 1..Len(rows) |-> rows[i].v] \o <<>>
   IN IF ~ref.ok \/ ~(\A i \in 1..Len(ref.vals) : R!DistinctKeys(ref.vals[i]))
         THEN Flag("GEN", r.case, "input is not in the quantifier of C01")
-     ELSE IF "expect" \in DOMAIN r /\ ~SameSeq(ref.vals, r.expect)
+     ELSE IF "expect" \in DOMAIN r /\ ~(Len(ref.vals) = Len(r.expect) /\ \A i \in 1..Len(r.expect) : MSame(ref.vals[i], r.expect[i]))
         THEN Flag("SPEC", r.case, "Rfc8259 disagrees with the generator of MC_C01")
      ELSE IF r.res # "ok" THEN Flag("MISMATCH", r.case, "run did not succeed")
      ELSE IF r.err # <<>> THEN Flag("MISMATCH", r.case, "something was written to stderr")
      ELSE IF sp.rest # <<>> THEN Flag("MISMATCH", r.case, "output does not end with the row separator")
      ELSE IF \E i \in 1..Len(rows) : ~rows[i].ok THEN Flag("MISMATCH", r.case, "an output row is not a JSON text")
      ELSE IF Len(vals) # Len(ref.vals) THEN Flag("MISMATCH", r.case, <<"row count", Len(vals), "values", Len(ref.vals)>>)
-     ELSE IF ~SameSeq(vals, ref.vals)
-        THEN Flag("MISMATCH", r.case, <<"first differing row", CHOOSE i \in 1..Len(vals) : ~JSame(vals[i], ref.vals[i])>>)
-     ELSE IF ~SameSeq(L!ValuesOf(L!LexRun(r.in).out), ref.vals) THEN Flag("DRIFT", r.case, "JsonLexer differs from Rfc8259 on this input")
-     ELSE TRUE
+     ELSE IF ~SameSeq(ref.vals, vals)
+        THEN Flag("MISMATCH", r.case, <<"first differing row", CHOOSE i \in 1..Len(vals) : ~FSame(ref.vals[i], vals[i])>>)
+     ELSE LET lv == L!ValuesOf(L!LexRun(r.in).out) IN
+          IF ~(Len(lv) = Len(ref.vals) /\ \A i \in 1..Len(lv) : LSame(ref.vals[i], lv[i]))
+          THEN Flag("DRIFT", r.case, "JsonLexer differs from Rfc8259 on this input")
+          ELSE TRUE
 
 Init == l = 1
 Next == l <= Len(Rec) /\ l' = l + 1 /\ Check(Rec[l])      \* l' first: TLC caches LETs only once the successor is assigned
